@@ -322,7 +322,10 @@ def run_check(prop, tier, repo, seed, only, jobs, verbose, write_baseline=False)
         "wall_s": round(wall, 3),
         "violations": len(viol_lines),
     }
-    with open(os.path.join(ROOT, "evidence", "%s.json" % prop), "w") as f:
+    # evidence is the record of a run against /repo itself; runs against a scratch copy (--repo, mutant self-test)
+    # and partial runs (--only) write next to it, never over it
+    ev_name = "%s.json" % prop if (not repo and not only) else "_scratch-%s.json" % prop
+    with open(os.path.join(ROOT, "evidence", ev_name), "w") as f:
         json.dump(evidence, f, indent=1, default=str)
 
     for l in kf_lines:
